@@ -1,7 +1,7 @@
 \* monitor: the C07 formulas alone on recorded call results
 CONSTANTS
-    RawU = {"a", ".wh.a", ".wh..wh..opq", ".prefetch.landmark", ".no.prefetch.landmark", "stargz.index.json", ".wh..wh.foo", "l"}
-    LookupU = {"a", ".wh.a", "foo", ".wh.foo", ".wh..wh.foo", ".wh..opq", ".wh..wh..opq", ".prefetch.landmark", ".no.prefetch.landmark", "stargz.index.json", "zz", ".stargz-snapshotter", "l"}
+    RawU = {"a", ".wh.a", ".wh..wh..opq", ".prefetch.landmark", ".no.prefetch.landmark", "stargz.index.json", ".wh..wh.foo", "l", "c13", "c00"}
+    LookupU = {"a", ".wh.a", "foo", ".wh.foo", ".wh..wh.foo", ".wh..opq", ".wh..wh..opq", ".prefetch.landmark", ".no.prefetch.landmark", "stargz.index.json", "zz", ".stargz-snapshotter", "l", "c13", "c00"}
     MaxChildren = 100
     ExtraContents = {}
     Modes = {"trusted", "user", "all"}
@@ -19,5 +19,5 @@ CONSTANTS
     WriterDropsToc = TRUE
     HardLinkSharesInode = TRUE
 SPECIFICATION MonSpec
-INVARIANTS MonListingIsTranslation MonListedIffLookup MonWhiteoutShape MonChildAttr MonInodesUniqueStable MonHardLinks MonOpaqueXattr MonStateFileJSON MonStateDirHidden
+INVARIANTS MonListingIsTranslation MonListedIffLookup MonEntryAttr MonChildAttr MonInodesUniqueStable MonHardLinks MonOpaqueXattr MonStateFileJSON MonStateDirHidden
 CHECK_DEADLOCK FALSE
